@@ -326,6 +326,7 @@ def main(argv):
             "payload after the free; R-FUNNEL the only read-modify-write sites are Arc's, and every handle kind's Clone/Drop reaches them exactly "
             "once. Orderings are read from MIR operands (enum variants), receivers by def-use. The memory model itself is the trusted lemma: given "
             "these premises every access through a released handle happens-before the destruction and exactly one decrement observes 1."
+            " Round thirteen/fourteen: R-WRITEBACK as a premise (no handle keeps the address of a released block); the acquire operation may be a call of the crate's own Acquire loader."
         ),
         rule_text="instances = atomic call sites, decrement-to-free regions, count-field access sites, clone/drop entry points",
         trusted_base=["the release/acquire reference-counting lemma (C++11/Rust memory model)", "rustc nightly MIR and trait resolution", "std model table"],
